@@ -646,5 +646,5 @@ func TestVerif_C16(t *testing.T) {
 	if types.MaxKeyLevelCacheSize != types.EpochLength*50 || types.EpochLength != 12 {
 		s.Note("unexpected parameters: EpochLength=%d MaxKeyLevelCacheSize=%d", types.EpochLength, types.MaxKeyLevelCacheSize)
 	}
-	kit.Run(s, "history_cached_vs_uncached", kit.N{Quick: 12000, Thorough: 500000}, c16Gen, c16Check)
+	kit.Run(s, "history_cached_vs_uncached", kit.N{Quick: 12000, Thorough: 300000}, c16Gen, c16Check)
 }
